@@ -589,15 +589,28 @@ pub fn run(args: &[String]) {
     }
     let sched: Vec<Value> = serde_json::from_str(&std::fs::read_to_string(sched_path).unwrap()).unwrap();
     let out = Arc::new(std::sync::Mutex::new(std::fs::OpenOptions::new().create(true).append(true).open(out_path).unwrap()));
-    // watchdog
+    // watchdog: the budget is CPU time of this process (the calling thread is the only one that computes), so that a loaded
+    // machine does not turn a slow call into a timeout; a call that blocks without computing is caught by a wall-clock cap
+    fn cpu_ticks() -> u64 {
+        // utime + stime of /proc/self/stat, in clock ticks (100 per second)
+        std::fs::read_to_string("/proc/self/stat").ok().and_then(|s| {
+            let rest = s.rsplit_once(')')?.1.to_owned();
+            let f: Vec<&str> = rest.split_whitespace().collect();
+            Some(f.get(11)?.parse::<u64>().ok()? + f.get(12)?.parse::<u64>().ok()?)
+        }).unwrap_or(0)
+    }
     let current = Arc::new(AtomicU64::new(u64::MAX));
-    let began = Arc::new(std::sync::Mutex::new(Instant::now()));
+    let began = Arc::new(std::sync::Mutex::new((Instant::now(), 0u64)));
     {
         let (current, began, out) = (current.clone(), began.clone(), out.clone());
         std::thread::spawn(move || loop {
             std::thread::sleep(Duration::from_millis(200));
             let pos = current.load(Ordering::SeqCst);
-            if pos != u64::MAX && began.lock().unwrap().elapsed() > Duration::from_secs(budget) {
+            if pos == u64::MAX {
+                continue;
+            }
+            let (t0, c0) = *began.lock().unwrap();
+            if cpu_ticks().saturating_sub(c0) > budget * 100 || t0.elapsed() > Duration::from_secs(budget * 25) {
                 let mut f = out.lock().unwrap();
                 let _ = writeln!(f, "T {pos}");
                 let _ = f.flush();
@@ -627,7 +640,7 @@ pub fn run(args: &[String]) {
                 let mut f = out.lock().unwrap();
                 let _ = writeln!(f, "B {pos}");
             }
-            *began.lock().unwrap() = Instant::now();
+            *began.lock().unwrap() = (Instant::now(), cpu_ticks());
             current.store(pos as u64, Ordering::SeqCst);
             let t0 = Instant::now();
             let rec = if ep == "ruleset_edit" {
